@@ -51,6 +51,12 @@ CLAIMED = {
         "known finding KF-C07-typed-copy-default-kind (pinned by a test) is mirrored by the model and reported as KNOWN-FINDING",
         "DESIGN.md §6 C07",
     ),
+    "C08": (
+        "Lean 4 theorems (in-place result = declarative keep-set restriction; copy = the same up to the known duplicate) + exhaustive verdict-assignment correspondence",
+        "filterSpec is defined independently (scan order, first stop, accepted nodes + ancestors + selected branches + skip-keep-self nodes); theorems relate the in-place algorithm and the copying algorithm to it. Tie: all 6^n verdict assignments on all forests up to the size bound, every start node, all spellings, in place and copying, on the real code vs model vs specification.",
+        "known finding KF-C08-filtered-duplicates (pinned by test_filtered) is mirrored by the model, characterised exactly (stripDup) and reported as KNOWN-FINDING",
+        "DESIGN.md §6 C08",
+    ),
     "C09": (
         "Lean 4 theorems (search loop with counter/break = filter+take; index access decision table) + differential correspondence",
         "Theorems in lean/Nutree/Properties/C09.lean: the `_search` loop equals the matching nodes of the pre-order cut to the first k; find_first = head; index lookups with a limit are a prefix of the clone list; tree[key] resolves node_id, then data_id, then data with KeyError/Ambiguous/ValueError as specified. Tie: all small forests with clones x start nodes x patterns x limits x key kinds.",
